@@ -51,6 +51,8 @@ def gen(rng, idx, tier, seed):
     spec['src'] = 'direct' if (idx // len(refcamx.FORMATS)) % 3 == 2 \
         else 'image'
     spec['stale_attrs'] = bool(rng.random() < 0.3)
+    spec['decoy_seed'] = int(rng.integers(1 << 30)) if rng.random() < 0.4 \
+        else None
     if fmt in ('uamiv', 'lateral_boundary') and rng.random() < 0.35:
         # end of a step at midnight written as hour 24 of the ending day
         spec['eod24'] = True
@@ -199,6 +201,24 @@ def run(spec, res):
         p1 = os.path.join(d, 'w1.' + fmt)
         p2 = os.path.join(d, 'w2.' + fmt)
         problems = []
+        if spec.get('decoy_seed') is not None and fmt != 'landuse':
+            # another file of the same format (another grid) is opened and
+            # read between reading f and writing it: what one open file knows
+            # must not leak into another
+            try:
+                ds = refcamx.gen_spec(np.random.default_rng(
+                    [spec['decoy_seed'], 3]), fmt)
+                if fmt == 'uamiv':
+                    ds['name'] = 'AVERAGE'
+                dp = os.path.join(d, 'decoy.' + fmt)
+                with open(dp, 'wb') as fh:
+                    fh.write(refcamx.encode(ds))
+                dec = open_lib(fmt, dp, ds)
+                for k in list(dec.variables.keys())[:2]:
+                    np.asarray(dec.variables[k][...])
+                facets.append('decoy-open')
+            except Exception:
+                res.note('decoy-open-failed')
         try:
             o = pncgen(f, p1, format=fmt, verbose=0)
             try:
